@@ -7,11 +7,8 @@ import (
 	"crypto/ecdsa"
 	"crypto/ed25519"
 	"crypto/rsa"
-	"crypto/x509"
-	"encoding/base64"
-	"encoding/json"
-	"encoding/pem"
 	"fmt"
+	"strings"
 	"sync"
 
 	kit "github.com/dapr/kit/crypto"
@@ -44,6 +41,9 @@ type memCase struct {
 	Pack []int
 	Gap  []int
 	Cap  string
+	// Text: the textual transforms applied, in this order, to the document of the functions that take a key or a certificate as
+	// text (keydoc_test.go); each takes its position / byte / width from Seed.
+	Text []string
 	Seed uint64
 }
 
@@ -52,11 +52,14 @@ func (c memCase) String() string {
 	if len(c.Pack) > 0 {
 		lay = fmt.Sprintf(" pack=%v gap=%v cap=%s", c.Pack, c.Gap, c.Cap)
 	}
+	if len(c.Text) > 0 {
+		lay += fmt.Sprintf(" text=%v", c.Text)
+	}
 	return fmt.Sprintf("mem{op=%s alg=%s mode=%s len=%d aad=%d spare=%v dst=%s/%d nilEmpty=%v%s seed=%#x}", c.Op, c.Alg, c.Mode, c.Len, c.AadLen, c.Spare, c.Dst, c.DstLen, c.NilEmpty, lay, c.Seed)
 }
 
 func (c memCase) fp() uint64 {
-	return vk.FP("mem", c.Op, c.Alg, c.Mode, c.Len, c.AadLen, fmt.Sprint(c.Spare), c.Dst, c.DstLen, c.NilEmpty, fmt.Sprint(c.Pack), fmt.Sprint(c.Gap), c.Cap)
+	return vk.FP("mem", c.Op, c.Alg, c.Mode, c.Len, c.AadLen, fmt.Sprint(c.Spare), c.Dst, c.DstLen, c.NilEmpty, fmt.Sprint(c.Pack), fmt.Sprint(c.Gap), c.Cap, strings.Join(c.Text, ">"))
 }
 
 // call is the bookkeeping of one case.
@@ -68,8 +71,9 @@ type call struct {
 	results [][]byte // returned slices (for the aliasing statistics)
 	err     error
 	pnc     any
-	harness string // harness-side problem (not a verdict about kit)
-	keyMsg  string // non-empty: the raw bytes of the symmetric jwk.Key changed
+	harness string   // harness-side problem (not a verdict about kit)
+	keyMsg  string   // non-empty: the raw bytes of the symmetric jwk.Key changed
+	classes []string // what the case was made of, beyond function / path / layout / size (for the evidence)
 }
 
 func (k *call) spare() int {
@@ -823,61 +827,4 @@ func (k *call) open() {
 	k.protect(func() { out, k.err = a.Open(dst, nonce, ct, aad) })
 	k.results = [][]byte{out}
 	k.reached = reached && k.pnc == nil && (c.Mode != "ok" || k.err == nil)
-}
-
-// ------------------------------------------------------------------ ParseKey
-
-var parseKeyFormats = []string{"raw16", "raw32", "raw-other", "base64std", "base64url", "base64pad", "jwk-oct", "jwk-ec", "pem-pkcs8", "pem-pkix", "garbage"}
-var parseKeyModes = []string{"auto", "typed"}
-
-// keyTextLen is the number of key bytes behind an encoded key: 1..64, or the whole length for the large size classes.
-func keyTextLen(n int) int {
-	if n >= bigFrom {
-		return n
-	}
-	return 1 + n%64
-}
-
-func (k *call) parseKey() {
-	c := k.c
-	var in []byte
-	ct := ""
-	ks := refcrypto.Keys()
-	switch c.Alg {
-	case "raw16":
-		in = k.rnd("k", 16)
-	case "raw32":
-		in = k.rnd("k", 32)
-	case "raw-other":
-		in = append([]byte{0xff, 0xfe}, k.rnd("k", c.Len)...)
-	case "base64std":
-		in = []byte(base64.StdEncoding.EncodeToString(k.rnd("k", keyTextLen(c.Len))))
-	case "base64url":
-		in = []byte(base64.RawURLEncoding.EncodeToString(append([]byte{0xfb, 0xff}, k.rnd("k", keyTextLen(c.Len))...)))
-	case "base64pad":
-		in = []byte(base64.StdEncoding.EncodeToString(k.rnd("k", keyTextLen(c.Len))) + "=\n\n")
-	case "jwk-oct":
-		in, _ = json.Marshal(map[string]string{"kty": "oct", "k": base64.RawURLEncoding.EncodeToString(k.rnd("k", keyTextLen(c.Len)))})
-		ct = "application/json"
-	case "jwk-ec":
-		in, _ = json.Marshal(fixedJWK("p256"))
-		ct = "application/json"
-	case "pem-pkcs8":
-		der, _ := x509.MarshalPKCS8PrivateKey(ks.P384)
-		in = pem.EncodeToMemory(&pem.Block{Type: "PRIVATE KEY", Bytes: der})
-		ct = "application/x-pem-file"
-	case "pem-pkix":
-		der, _ := x509.MarshalPKIXPublicKey(&ks.RSA2048.PublicKey)
-		in = pem.EncodeToMemory(&pem.Block{Type: "PUBLIC KEY", Bytes: der})
-		ct = "application/pkcs8"
-	case "garbage":
-		in = append([]byte("{"), k.rnd("k", c.Len)...)
-	}
-	if c.Mode == "auto" {
-		ct = ""
-	}
-	raw := k.arg("raw", in)
-	var key jwk.Key
-	k.protect(func() { key, k.err = kit.ParseKey(raw, ct) })
-	k.reached = k.pnc == nil && k.err == nil && key != nil
 }
